@@ -1,9 +1,9 @@
-\* C24 quick: plain strings <= 3 chars over 8 letters; RLE strings <= 2 runs; reduced tag parts
+\* C24 quick: plain strings <= 4 chars over 8 letters; RLE strings <= 2 runs; reduced tag parts
 INIT TInit
 NEXT TNext
 CONSTANTS
   PlainAlpha = {"a", "0", "-", "_", ".", "+", "A", "!"}
-  PlainMax = 3
+  PlainMax = 4
   RleAlpha = {"a", "0", "-", "_", "+", "A", "!", "."}
   RleLens = {1, 2, 9, 10, 11, 39, 40, 41}
   RleMaxRuns = 2
